@@ -796,7 +796,7 @@ pub fn pool(f: &FieldRow) -> (Vec<&'static str>, Vec<&'static str>) {
             } else if de.ends_with("deserialize_list") {
                 (vec!["a", "a\nb", "", "a\n", "a\n\nb", "a\r\nb", "foo_1.0-1 [amd64, i386]\nlibfoo1_1.0-1 [all]", "a b"], vec![])
             } else {
-                (vec!["a", "a b c", "", " a  b ", "a\nb", "main contrib", "x #y z"], vec![])
+                (vec!["a", "a b c", "", " a  b ", "a\nb", "main contrib", "x #y z", "RCS/*,v a,b"], vec![])
             }
         }
         _ => (vec!["value", "two words", "", "multi\nline", " lead", "é", "a: b", "#hash", "first\n\nthird", "a\nb\n\nc"], vec![]),
@@ -1032,6 +1032,22 @@ pub fn generate_c16(tier: &str, seed: u64, out: &mut Out) {
                 v.extend(["b:1".to_string(), "b:0".to_string(), "b:1".to_string()]);
                 out.req("derive.value", &v);
             }
+        }
+        // plain String fields: any string survives to_paragraph / from_paragraph on both back-ends,
+        // white space at its ends, an empty string and line breaks included (nothing is trimmed)
+        for odd in [" lead", "trail ", "\tx\t", "", "a\nb", "\nlead-lf", "  ", "\u{a0}nbsp\u{3000}"] {
+            for pos in 0..6 {
+                let mut v = vec!["apt.Release".to_string(), b.to_string(), sx("sid"), lx(&["main"]), lx(&["amd64"])];
+                for (i, s) in ["d", "Debian", "Debian", "unstable", "x", "Sat, 01 Jan 2022"].iter().enumerate() {
+                    v.push(sx(if i == pos { odd } else { s }));
+                }
+                v.extend(["b:1".to_string(), "b:0".to_string(), "b:1".to_string()]);
+                out.req("derive.value", &v);
+            }
+            out.req(
+                "derive.value",
+                &["ftpmaster.Removal".to_string(), b.to_string(), sx(odd), "none".into(), sx(odd), "none".into(), "none".into(), sx(odd), "none".into()],
+            );
         }
         let olists: Vec<Option<Vec<&str>>> = std::iter::once(None).chain(lists.iter().cloned().map(Some)).collect();
         for so in &olists {
